@@ -54,6 +54,29 @@ pub fn dispatch(op: &str, a: &[&str]) -> Option<Ans> {
             let p2 = kp.precalculate(&StackByteArray::from(pk));
             let mut s = [0u8; 32];
             let sr = unsafe { so::crypto_box_beforenm(s.as_mut_ptr(), pk.as_ptr(), sk.as_ptr()) };
+            // the protected-memory forms of the same precomputation (nightly): locked and read-only locked containers,
+            // through PrecalcSecretKey and through a locked key pair
+            #[cfg(feature = "nightly")]
+            {
+                use dryoc::precalc::protected::*;
+                use dryoc::precalc::PrecalcSecretKey as PSK;
+                let l1 = PSK::precalculate_locked(&pk, &sk).map(|x| x.to_vec());
+                let l2 = PSK::precalculate_readonly_locked(&pk, &sk).map(|x| x.to_vec());
+                let lsk = HeapByteArray::<32>::from_slice_into_locked(&sk).unwrap();
+                let lpk = HeapByteArray::<32>::from_slice_into_locked(refs_pk(&sk).as_slice()).unwrap();
+                let lkp = dryoc::keypair::KeyPair { public_key: lpk, secret_key: lsk };
+                let l3 = lkp.precalculate_locked(&StackByteArray::from(pk)).map(|x| x.to_vec());
+                let rsk = HeapByteArray::<32>::from_slice_into_readonly_locked(&sk).unwrap();
+                let rpk = HeapByteArray::<32>::from_slice_into_readonly_locked(refs_pk(&sk).as_slice()).unwrap();
+                let rkp = dryoc::keypair::KeyPair { public_key: rpk, secret_key: rsk };
+                let l4 = rkp.precalculate_readonly_locked(&StackByteArray::from(pk)).map(|x| x.to_vec());
+                for (name, l) in [("precalculate_locked", &l1), ("precalculate_readonly_locked", &l2), ("KeyPair::precalculate_locked", &l3), ("KeyPair::precalculate_readonly_locked", &l4)] {
+                    match l {
+                        Ok(v) if v.as_slice() == k => {}
+                        _ => return Some((format!("mismatch precalc {} != crypto_box_beforenm", name), "n/a".into())),
+                    }
+                }
+            }
             if p.as_slice() != k || p2.as_slice() != k {
                 ("mismatch precalc".into(), "n/a".into())
             } else {
@@ -78,9 +101,10 @@ pub fn dispatch(op: &str, a: &[&str]) -> Option<Ans> {
             let other = dryoc::kx::PublicKey::from(opk);
             let sess = if op == "kx_client" { dryoc::kx::StackSession::new_client(&kp, &other) } else { dryoc::kx::StackSession::new_server(&kp, &other) };
             let sess2 = if op == "kx_client" { kp.kx_new_client_session::<dryoc::kx::SessionKey>(&other) } else { kp.kx_new_server_session::<dryoc::kx::SessionKey>(&other) };
-            let ia = match (&r, &sess, &sess2) {
+            let mut ia = match (&r, &sess, &sess2) {
                 (Ok(()), Ok(s1), Ok(s2)) => {
-                    if s1.rx_as_slice() != rx || s1.tx_as_slice() != tx || s2.rx_as_slice() != rx || s2.tx_as_slice() != tx {
+                    if s1.rx_as_slice() != rx || s1.tx_as_slice() != tx || s2.rx_as_slice() != rx || s2.tx_as_slice() != tx
+                        || s1.rx_as_array() != &rx || s1.tx_as_array() != &tx {
                         "mismatch session".to_string()
                     } else {
                         format!("ok {} {}", hex(&rx), hex(&tx))
@@ -89,6 +113,21 @@ pub fn dispatch(op: &str, a: &[&str]) -> Option<Ans> {
                 (Err(_), Err(_), Err(_)) => "err".to_string(),
                 _ => "mismatch session result".to_string(),
             };
+            // every way of getting the keys out of the object: the consuming into_parts() is documented as (rx, tx)
+            if ia.starts_with("ok") {
+                if let (Ok(s1), Ok(s2)) = (sess, sess2) {
+                    let (prx, ptx) = s1.into_parts();
+                    let (qrx, qtx) = s2.into_parts();
+                    if prx.as_slice() != rx || ptx.as_slice() != tx || qrx.as_slice() != rx || qtx.as_slice() != tx {
+                        ia = "mismatch session into_parts() != (rx, tx)".to_string();
+                    }
+                }
+                let vs = if op == "kx_client" { dryoc::kx::Session::<Vec<u8>>::new_client(&kp, &other) } else { dryoc::kx::Session::<Vec<u8>>::new_server(&kp, &other) };
+                match vs {
+                    Ok(v) => { let (a, b2) = v.into_parts(); if a != rx || b2 != tx { ia = "mismatch Vec session into_parts()".to_string(); } }
+                    Err(_) => ia = "mismatch Vec session result".to_string(),
+                }
+            }
             (ia, if sr == 0 { format!("ok {} {}", hex(&srx), hex(&stx)) } else { "err".into() })
         }
         "kx_seed_keypair" => {
@@ -135,7 +174,19 @@ pub fn dispatch(op: &str, a: &[&str]) -> Option<Ans> {
                 unsafe { so::crypto_scalarmult_base(spk.as_mut_ptr(), h.as_ptr()) };
                 format!("ok {} {}", hex(&spk), hex(&h[..32]))
             };
-            if kp.public_key.as_slice() != pk || kp.secret_key.as_slice() != sk {
+            // the in-place form, whatever the caller's buffers held before: fresh sentinels, the right secret key with a stale
+            // public key (restored from storage / second derivation into reused buffers), and the reverse
+            let mut inplace_bad = None;
+            for (pk0, sk0) in [([0xA5u8; 32], [0xA5u8; 32]), ([0xA5u8; 32], sk), (pk, [0x5Au8; 32]), ([0u8; 32], sk), (pk, sk)] {
+                let (mut p2, mut s2) = (pk0, sk0);
+                crypto_box_seed_keypair_inplace(&mut p2, &mut s2, seed);
+                if p2 != pk || s2 != sk {
+                    inplace_bad = Some(format!("mismatch seed_keypair_inplace(pk buffer {}.., sk buffer {}..)", hex(&pk0[..2]), hex(&sk0[..2])));
+                }
+            }
+            if let Some(m) = inplace_bad {
+                (m, sa)
+            } else if kp.public_key.as_slice() != pk || kp.secret_key.as_slice() != sk {
                 ("mismatch from_seed".into(), sa)
             } else {
                 (format!("ok {} {}", hex(&pk), hex(&sk)), sa)
@@ -148,7 +199,15 @@ pub fn dispatch(op: &str, a: &[&str]) -> Option<Ans> {
             let kp2 = dryoc::sign::SigningKeyPair::<dryoc::sign::PublicKey, dryoc::sign::SecretKey>::from_secret_key(sk.into());
             let (mut spk, mut ssk) = ([0u8; 32], [0u8; 64]);
             unsafe { so::crypto_sign_seed_keypair(spk.as_mut_ptr(), ssk.as_mut_ptr(), seed.as_ptr()) };
-            if kp.public_key.as_slice() != pk || kp.secret_key.as_slice() != sk || kp2.public_key.as_slice() != pk {
+            let mut inplace_bad = false;
+            for (pk0, sk0) in [([0xA5u8; 32], [0xA5u8; 64]), ([0xA5u8; 32], sk), (pk, [0x5Au8; 64]), (pk, sk)] {
+                let (mut p2, mut s2) = (pk0, sk0);
+                crypto_sign_seed_keypair_inplace(&mut p2, &mut s2, &seed);
+                if p2 != pk || s2 != sk { inplace_bad = true; }
+            }
+            if inplace_bad {
+                ("mismatch sign_seed_keypair_inplace on reused buffers".into(), format!("ok {} {}", hex(&spk), hex(&ssk)))
+            } else if kp.public_key.as_slice() != pk || kp.secret_key.as_slice() != sk || kp2.public_key.as_slice() != pk {
                 ("mismatch SigningKeyPair".into(), format!("ok {} {}", hex(&spk), hex(&ssk)))
             } else {
                 (format!("ok {} {}", hex(&pk), hex(&sk)), format!("ok {} {}", hex(&spk), hex(&ssk)))
@@ -279,4 +338,12 @@ pub fn dispatch(op: &str, a: &[&str]) -> Option<Ans> {
         }
         _ => return None,
     })
+}
+
+
+#[cfg(feature = "nightly")]
+fn refs_pk(sk: &[u8; 32]) -> [u8; 32] {
+    let mut pk = [0u8; 32];
+    dryoc::classic::crypto_core::crypto_scalarmult_base(&mut pk, sk);
+    pk
 }
